@@ -22,6 +22,7 @@ NORMALISATIONS = [
     "N1 ScanLock: mocktikv ignores StartKey/EndKey/Limit and returns no lock_type; the wrapping client keeps keys >= start, < end, in key order, first `limit`, and fills lock_type from the MVCC debugger (TiKV's contract)",
     "N2 ResolveLock{TxnInfos}: only when VERIF_C14_N2=auto|on (default off since the mock honours TxnInfos, fix 448a517; see mock_probe.n2_mode / n2_active of this run): the wrapping client issues one single-transaction ResolveLock per TxnInfo with the same region context. With the default, a mock that ignores TxnInfos again is reported by the lock audit (and by the probe case) as a violation",
     "N3 DeleteRange{NotifyOnly}: mocktikv deletes anyway; the wrapping client answers notify-only requests itself after an epoch check",
+    "N3u (unistore tier): unistore's DeleteRange panics on an unbounded end key; the wrapping client forwards ff ff ff ff; delete-range audit by snapshot reads (unistore's MvccGetByKey panics on a removed key)",
     "N1u (unistore tier): unistore's ScanLock ignores StartKey/EndKey and counts the limit from the region start; the wrapping client requests everything and applies TiKV's contract; lock values are taken from the script (ScanLock reports none)",
     "populations are written and audited directly through the mock's MVCCStore interface (Prewrite/PessimisticLock/Commit/Rollback/MvccGetByKey), not through region-routed RPCs",
 ]
@@ -304,6 +305,23 @@ def do_gc(cx, res):
         if rd["res"] != exp:
             bad_reads.append({"read": rd, "expected": exp})
     cx.oracle(not bad_reads, res, "C14_outcomes_kept(snapshot reads at ts >= safe point)", json.dumps(bad_reads[:3]))
+    # C14_rollback_markers_partial: late prewrites of rolled-back (key, start) are refused; the model's markers are on disk (mock tier)
+    late_bad = [rd for rd in res.get("late") or [] if rd["res"] != "refused"]
+    cx.oracle(not late_bad, res, "C14_rollback_markers_partial(a late prewrite of a rolled-back (key, start ts) is refused)", json.dumps(late_bad[:3]))
+    cx.stats["late-prewrite-probes"] += len(res.get("late") or [])
+    if not uni:
+        def cb_mark(f):
+            miss = []
+            for item in (f[0].split(",") if f and f[0] else []):
+                k, t = item.split("@"); t = int(t, 16)
+                if not in_range(k, s, e):
+                    continue
+                r1 = post_by_key.get(k)
+                if r1 is not None and not any(w["kind"] == "rollback" and w["start"] == t for w in r1["writes"]):
+                    miss.append({"key": k, "start": t, "post": r1})
+            if miss:
+                cx.mismatch(res, "rollback records after the pass vs RangeTask.markers", miss[:3], f)
+        cx.ask(qid + "m", "\t".join(["markers", qid + "m", hexn(sp), m_store(pre)]), cb_mark)
     # C14_reads_kept_pass: keys that held no lock read the same before and after the pass (real reads on both sides)
     after = {(rd["key"], rd["ts"]): rd["res"] for rd in res.get("reads") or []}
     changed = [{"before": rb, "after": after[(rb["key"], rb["ts"])]} for rb in res.get("reads_before") or []
